@@ -453,6 +453,7 @@ var c13LongSteps = []string{
 	// steps that no poll interrupts (one unification, one copy, one sort of a long list): seconds, far below the bound,
 	// but long enough for a cancellation to land inside them
 	"length(L, 400000), length(M, 400000), L = M.", "length(L, 400000), copy_term(L, M).", "length(L, 400000), term_variables(L, Vs).", "length(L, 400000), length(M, 400000), L == M.",
+	"length(L, 100000), acyclic_term(L).",
 	// a term that shares its subterms 25 levels deep (2^25 leaves as a tree, 25 cells as a graph) given to a control
 	// construct: thorough tier only, an open known finding (call/N expands the graph as a tree, in one step)
 	"dbl(25, X), \\+ X = b.",
@@ -740,7 +741,7 @@ func c13Replay(b []byte) (string, string, bool) {
 func init() {
 	h.Register(&h.Check{
 		ID:            "C13",
-		Rule:          "all (loop, wrapper, position, cancellation instant) combinations: 13 loops (repeat-driven with a Prolog and with a Go built-in failing, direct / mutual / non-tail recursion, between/3, length/2, retract/assertz ping-pong, and 5 loops that write nothing) x wrappers {none, findall, bagof, setof, \\+, \\+\\+, catch with true / with the loop again as recovery, call, once, ;, ->} nested to depth 1 (quick: plus 7 depth-2 nestings; thorough: all depth-2 nestings) x positions {query, second answer of a query, directive of an Exec text, initialization/1 goal, body of a user term_expansion/2 during Exec, file consulted through Interpreter.FS by consult/1 and by an ensure_loaded/1 directive - after which the same file must be loadable} x cancellation instant k = 0 (already cancelled) .. K where the real cancel() is called by the output writer when the k-th byte arrives (every loop writes a byte before each goal, so k enumerates every phase of every iteration) plus the deep instants k = 300, 3000, 12000 (thorough: 1000, 5000, 40000 too) at which the machine's stacks hold thousands of entries; silent loops are cancelled from a timer at several delays; cancellation BETWEEN two answers: 10 generators x after 0..3 delivered answers x {cancel, deadline}: the next Next returns false and Err is the context's error; cancellation at the k-th POLL: the context counts how often the engine looks at it and cancels at the k-th look - for 11 goals that deliver answers (setof/bagof/sort/keysort/findall/length of thousands of elements, nested, under catch and \\+) every k <= 150 (300), ~150 (3000) further instants and every one of the last 250 (400) polls: the answers delivered are a prefix of the uncancelled run's, each exactly equal, fewer only with the context's error; long single steps: 11 goals, 4 of them uninterruptible for seconds (thorough: plus an error unwinding past 600000 exited catch/3 goals), each followed by a registered Go predicate that tells when the execution went on: it must not run after the cancelled call has returned whose work happens inside one built-in call (bagof/setof grouping of 60000 witnesses, sort/keysort/findall/length over 300000..600000 elements) cancelled 20, 200, 1000 ms in: the call returns within 20 s of cancel(). Distinct = (goal, position, k).",
+		Rule:          "all (loop, wrapper, position, cancellation instant) combinations: 13 loops (repeat-driven with a Prolog and with a Go built-in failing, direct / mutual / non-tail recursion, between/3, length/2, retract/assertz ping-pong, and 5 loops that write nothing) x wrappers {none, findall, bagof, setof, \\+, \\+\\+, catch with true / with the loop again as recovery, call, once, ;, ->} nested to depth 1 (quick: plus 7 depth-2 nestings; thorough: all depth-2 nestings) x positions {query, second answer of a query, directive of an Exec text, initialization/1 goal, body of a user term_expansion/2 during Exec, file consulted through Interpreter.FS by consult/1 and by an ensure_loaded/1 directive - after which the same file must be loadable} x cancellation instant k = 0 (already cancelled) .. K where the real cancel() is called by the output writer when the k-th byte arrives (every loop writes a byte before each goal, so k enumerates every phase of every iteration) plus the deep instants k = 300, 3000, 12000 (thorough: 1000, 5000, 40000 too) at which the machine's stacks hold thousands of entries; silent loops are cancelled from a timer at several delays; cancellation BETWEEN two answers: 10 generators x after 0..3 delivered answers x {cancel, deadline}: the next Next returns false and Err is the context's error; cancellation at the k-th POLL: the context counts how often the engine looks at it and cancels at the k-th look - for 11 goals that deliver answers (setof/bagof/sort/keysort/findall/length of thousands of elements, nested, under catch and \\+) every k <= 150 (300), ~150 (3000) further instants and every one of the last 250 (400) polls: the answers delivered are a prefix of the uncancelled run's, each exactly equal, fewer only with the context's error; long single steps: 12 goals, 4 of them uninterruptible for seconds (thorough: plus an error unwinding past 600000 exited catch/3 goals), each followed by a registered Go predicate that tells when the execution went on: it must not run after the cancelled call has returned whose work happens inside one built-in call (bagof/setof grouping of 60000 witnesses, sort/keysort/findall/length over 300000..600000 elements) cancelled 20, 200, 1000 ms in: the call returns within 20 s of cancel(). Distinct = (goal, position, k).",
 		Explanation:   "state = a fresh real interpreter with the loop program; transition = the pending QueryContext/Next or ExecContext call, which must return the context's error; at most 64 bytes may reach the writer after cancel() returned (a step bound, not a clock); immediately afterwards eight follow-up queries (failing, single-answer, enumerated to exhaustion, erroneous) must answer as on a fresh interpreter; a call that has not returned after the 60 s horizon is reported by the worker's watchdog ('does not return')",
 		Assumptions:   []string{"the implementation can observe a cancellation only at a poll, so instants fall into classes 'first poll that sees it'; the byte-triggered seam lands in every class of the loops that write", "the 60 s horizon is not a latency oracle (expected: microseconds)"},
 		Work:          c13Work,
